@@ -36,3 +36,59 @@ package multiparty
 //@   derived noiseSampler uses noise
 //@   fresh buf
 //@   copied Encryptor
+
+// ==== abstract contracts (Engine B): collective public key (C14), collective key switching (C16) ====
+//@ spec skinv(sk) = isntt(sk.Value.Q) && mexp(sk.Value.Q) == 1 && isntt(sk.Value.P) && mexp(sk.Value.P) == 1 && val(sk.Value.P) == val(sk.Value.Q)
+
+//@ afunc PublicKeyGenProtocol.GenShare
+//@   property C14
+//@   requires dist(ckg.gaussianSamplerQ) == XE && skinv(sk)
+//@   requires isntt(crp.Value.Q) && isntt(crp.Value.P) && len(shareOut.Value.Q.Coeffs) >= 1
+//@   wlog mexp(crp.Value.Q) == 1 && mexp(crp.Value.P) == 1 && val(crp.Value.P) == val(crp.Value.Q) given uni(crp.Value.Q) && uni(crp.Value.P)
+//@   let e = fresh(XE, old(draws(XE)))
+//@   ensures val(shareOut.Value.Q) == e - val(sk.Value.Q) * val(crp.Value.Q)
+//@   ensures val(shareOut.Value.P) == e - val(sk.Value.Q) * val(crp.Value.Q)
+//@   ensures mexp(shareOut.Value.Q) == 1 && mexp(shareOut.Value.P) == 1 && isntt(shareOut.Value.Q) && isntt(shareOut.Value.P)
+//@   ensures draws(XE) == old(draws(XE)) + 1
+
+//@ afunc PublicKeyGenProtocol.AggregateShares
+//@   property C14
+//@   requires isntt(share1.Value.Q) && isntt(share2.Value.Q) && isntt(share1.Value.P) && isntt(share2.Value.P)
+//@   requires mexp(share1.Value.Q) == mexp(share2.Value.Q) && mexp(share1.Value.P) == mexp(share2.Value.P)
+//@   ensures val(shareOut.Value.Q) == old(val(share1.Value.Q)) + old(val(share2.Value.Q))
+//@   ensures val(shareOut.Value.P) == old(val(share1.Value.P)) + old(val(share2.Value.P))
+//@   ensures mexp(shareOut.Value.Q) == old(mexp(share1.Value.Q)) && isntt(shareOut.Value.Q)
+
+//@ afunc PublicKeyGenProtocol.GenPublicKey
+//@   property C14
+//@   requires len(pubkey.Value) == 2
+//@   ensures val(pubkey.Value[0].Q) == old(val(roundShare.Value.Q)) && val(pubkey.Value[0].P) == old(val(roundShare.Value.P))
+//@   ensures val(pubkey.Value[1].Q) == old(val(crp.Value.Q)) && val(pubkey.Value[1].P) == old(val(crp.Value.P))
+//@   ensures mexp(pubkey.Value[0].Q) == old(mexp(roundShare.Value.Q)) && mexp(pubkey.Value[1].Q) == old(mexp(crp.Value.Q))
+
+//@ afunc KeySwitchProtocol.GenShare
+//@   property C16
+//@   requires dist(cks.noiseSampler) == XSMUDGE
+//@   requires isntt(skInput.Value.Q) && isntt(skOutput.Value.Q) && mexp(skInput.Value.Q) == 1 && mexp(skOutput.Value.Q) == 1
+//@   requires len(ct.Value) >= 2 && indom(ct.Value[1], ct.IsNTT) && mexp(ct.Value[1]) == 0 && len(shareOut.Value.Coeffs) >= 1 && len(ct.Value[1].Coeffs) >= 1
+//@   let smudge = fresh(XSMUDGE, old(draws(XSMUDGE)))
+//@   ensures val(shareOut.Value) == old(val(ct.Value[1])) * (val(skInput.Value.Q) - val(skOutput.Value.Q)) + smudge
+//@   ensures draws(XSMUDGE) == old(draws(XSMUDGE)) + 1
+//@   ensures mexp(shareOut.Value) == 0 && indom(shareOut.Value, ct.IsNTT)
+
+//@ afunc KeySwitchProtocol.AggregateShares
+//@   property C16
+//@   requires ((isntt(share1.Value) && isntt(share2.Value)) || (iscoef(share1.Value) && iscoef(share2.Value))) && mexp(share1.Value) == mexp(share2.Value)
+//@   requires len(share1.Value.Coeffs) >= 1
+//@   ensures implies(isnil(err), val(shareOut.Value) == old(val(share1.Value)) + old(val(share2.Value)))
+//@   ensures implies(len(share1.Value.Coeffs) != len(share2.Value.Coeffs) || len(share1.Value.Coeffs) != len(shareOut.Value.Coeffs), !isnil(err))
+
+//@ afunc KeySwitchProtocol.KeySwitch
+//@   property C16
+//@   requires len(ctIn.Value) == 2 && len(opOut.Value) == 2 && len(ctIn.Value[0].Coeffs) >= 1
+//@   requires mexp(combined.Value) == mexp(ctIn.Value[0]) && indom(ctIn.Value[0], ctIn.IsNTT) && indom(combined.Value, ctIn.IsNTT)
+//@   case true
+//@   case true ; alias opOut = ctIn
+//@   ensures val(opOut.Value[0]) == old(val(ctIn.Value[0])) + old(val(combined.Value))
+//@   ensures val(opOut.Value[1]) == old(val(ctIn.Value[1]))
+//@   ensures iff(opOut.IsNTT, ctIn.IsNTT)
